@@ -348,6 +348,7 @@ class Rig:
         self.out_command = Out(self.fds[1], "c", self)
         self.in_response = os.fdopen(self.fds[2], "rb", buffering=0)
         self.in_userinput = os.fdopen(self.fds[3], "rb", buffering=0)
+        self.wake_r, self.wake_w = os.pipe()
         self.thread = threading.Thread(target=self._loop, daemon=True)
         self.thread.start()
 
@@ -355,8 +356,8 @@ class Rig:
         import select
 
         while not self.stop:
-            r, _, _ = select.select([self.master], [], [], 0.05)
-            if not r:
+            r, _, _ = select.select([self.master, self.wake_r], [], [], 1.0)
+            if self.master not in r:
                 continue
             try:
                 data = os.read(self.master, 65536)
@@ -384,13 +385,14 @@ class Rig:
 
     def close(self):
         self.stop = True
+        os.write(self.wake_w, b"x")
         self.thread.join(timeout=2)
         for f in (self.in_response, self.in_userinput):
             try:
                 f.close()
             except OSError:
                 pass
-        for fd in self.fds[:2] + [self.master, self.slave]:
+        for fd in self.fds[:2] + [self.master, self.slave, self.wake_r, self.wake_w]:
             try:
                 os.close(fd)
             except OSError:
